@@ -351,7 +351,7 @@ pub fn main_codec(args: &[String]) {
             let c = current.load(Ordering::SeqCst);
             let s = started.load(Ordering::SeqCst);
             let now = std::time::SystemTime::now().duration_since(std::time::UNIX_EPOCH).unwrap().as_secs();
-            if c != u64::MAX && s != 0 && now > s + 30 {
+            if c != u64::MAX && s != 0 && now > s + 10 {
                 let mut f = std::fs::OpenOptions::new().append(true).open(format!("{}.hang", out_path)).or_else(|_| std::fs::File::create(format!("{}.hang", out_path))).unwrap();
                 let _ = writeln!(f, "{}", json!({"i": c, "hang": true}));
                 std::process::exit(3);
